@@ -85,6 +85,7 @@ class Calibration(TorchFunctionMode):
         if streamline:
             self.modules_qactivations = {}
         self.debug = debug
+        self._handles = []
 
     def __torch_function__(self, func, types, args=(), kwargs=None):
         kwargs = kwargs if kwargs is not None else {}
@@ -107,11 +108,14 @@ class Calibration(TorchFunctionMode):
         super().__enter__()
         self.pre_handle = register_module_forward_pre_hook(self.calibrate_input)
         self.post_handle = register_module_forward_hook(self.calibrate_output)
+        # Keep one pair of handles per entry, as the same instance can be entered again before it is left
+        self._handles.append((self.pre_handle, self.post_handle))
 
     def __exit__(self, exc_type, exc_val, exc_tb):
         super().__exit__(exc_type, exc_val, exc_tb)
-        self.pre_handle.remove()
-        self.post_handle.remove()
+        pre_handle, post_handle = self._handles.pop()
+        pre_handle.remove()
+        post_handle.remove()
 
     def calibrate_input(self, module: torch.nn.Module, input, momentum: float = 0.9):
         if isinstance(module, QModuleMixin) and module.activation_qtype is not None:
